@@ -421,7 +421,109 @@ def explore_faults(chunk):
     return agg
 
 
+# ---- runtime errors raised by library functions ----------------------------
+CALL_LINE = 3
+_SW = {}
+
+
+def _sweep_session():
+    from mc import sweep
+    if "s" not in _SW:
+        _SW["s"] = sweep.SweepSession(legacy=True)
+        _SW["forms"] = {}
+    return _SW["s"]
+
+
+def call_error_position(fname, argnames):
+    """run f(<args>) written on line 3 of a file called NAME; -> None (no
+    runtime error) or (file name, line) of the error, (None, None) if the
+    error carries no position at all"""
+    from mc import sweep
+    s = _sweep_session()
+    fn = dict(s.funcs)[fname]
+    n = len(argnames)
+    node = _SW["forms"].get(n)
+    if node is None:
+        node = core.ckl.parser.parse_script(
+            "\n\nf(" + ", ".join("abcd"[:n]) + ")", NAME)
+        _SW["forms"][n] = node
+    args = [sweep.POOL[sweep.POOL_INDEX[a]][1](s) for a in argnames]
+    env = s.env.newEnv()
+    env.put("f", fn)
+    for nm, v in zip("abcd", args):
+        env.put(nm, v)
+    s.session._bind_streams()
+    core.ckl.functions.seed = 1
+    core.set_fuel(30000, 30000)
+    core.arm(4.0)
+    try:
+        node.evaluate(env)
+    except core.CklRuntimeError as e:
+        if e.pos is None:
+            return (None, None)
+        return (e.pos.filename, e.pos.line)
+    except BaseException:
+        return None              # escapes are C13's matter
+    finally:
+        core.disarm()
+        core.set_fuel(10 ** 12, 10 ** 12)
+    return None
+
+
+# functions that hand text to the parser: lines inside that text are not
+# pinned (see DESIGN I.7), only the file name
+SNIPPET_CALLS = {"eval", "parse", "s"}
+
+
+def position_ok(p, callee=""):
+    """an error of a call on line 3 of NAME is reported there, or - when it
+    arises inside module code or inside a callback of the value pool - in
+    that source with a line of its own"""
+    if p is None:
+        return True
+    fname, line = p
+    if fname is None or not isinstance(line, int) or line < 1:
+        return False
+    if fname == NAME:
+        return line == CALL_LINE or callee.split("->")[-1] in SNIPPET_CALLS
+    return str(fname).startswith("mod:") or fname in ("pool", "prelude")
+
+
+def explore_calls(chunk):
+    from mc import sweep
+    agg = core.Agg()
+    s = _sweep_session()
+    fmap = dict(s.funcs)
+    names = [n for n, _ in sweep.POOL if n not in sweep.FORMS_ONLY]
+    for fname in chunk["funcs"]:
+        n = sweep.nparams_of(fmap[fname])
+        tuples = [()]
+        if n >= 1:
+            tuples += [(a,) for a in names]
+        if n >= 2:
+            pool2 = names if chunk["tier"] == "thorough" else sweep.SUBPOOL
+            tuples += [(a, b) for a in pool2 for b in pool2]
+        for t in tuples:
+            p = call_error_position(fname, t)
+            agg.count("steps")
+            agg.cls(("call-error", fname, p is not None))
+            if not position_ok(p, fname):
+                agg.violation(
+                    {"what": "call-error:position", "callee": fname,
+                     "position": "none" if p == (None, None) else "wrong"},
+                    {"t": "call", "callee": fname, "args": list(t)},
+                    [NAME, CALL_LINE], list(p),
+                    size=len(t) * 100 + sum(len(x) for x in t))
+        agg.count("cases")
+    return agg
+
+
 def replay(case, verbose=False):
+    if case["t"] == "call":
+        p = call_error_position(case["callee"], case["args"])
+        if verbose:
+            print(case, "->", p)
+        return not position_ok(p, case["callee"])
     if case["t"] == "tok":
         toks = scan(case["text"])
         t = toks[case["index"]]
@@ -457,9 +559,18 @@ def main(tier, seed):
     agg.merge(a2)
     agg.merge(core.pmap(explore_faults, [{"faults": [i]}
                                          for i in range(len(FAULTS))]))
+    sw = _sweep_session()
+    fnames = [f for f, _ in sw.funcs]
+    agg.merge(core.pmap(explore_calls,
+                        [{"funcs": c, "tier": tier}
+                         for c in core.chunked(fnames, core.NPROC * 4)]))
     core.finish(
         PID, tier, seed, agg, t0,
-        rule=(f"{len(TOKEN_KINDS)} token kinds x {len(FOLLOWERS)} followers "
+        rule=(f"{len(fnames)} library functions x argument tuples of arity "
+              f"<= 2 over the value pool of the call sweep (every runtime "
+              f"error of a call written on line {CALL_LINE} names the file "
+              f"and that line, or a line of the module it arises in); "
+              f"{len(TOKEN_KINDS)} token kinds x {len(FOLLOWERS)} followers "
               f"x {len(LEADS)} leads (first token line) and x "
               f"{len(CLEAN_SEPS)} separators (following token lines); every "
               f"token of {len(progs)} base programs under all layouts with "
